@@ -24,6 +24,7 @@ RULES = [
     Rule('C11.R2', 'a zero channel volume, expression or master volume yields model output 0 (carriers silenced) in every model', 3),
     Rule('C11.R3', 'model output is non-decreasing in each loudness input, level non-increasing in it; brightness mapping monotone', 20),
     Rule('C11.R4', 'carrier mask per algorithm equals the YM2612 output operators; modulators untouched unless scaling/brightness applies', 3),
+    Rule('C11.R5', 'the timbre that touchNote scales is the one setPatch uploaded last', 1),
 ]
 EXPLANATION = ('Interval abstract interpretation (E2) of OPN2::touchNote and of the Upd_Volume branch of noteUpdate with the parameter ranges obtained from the '
                'call-site join, specialised per volume model by fixing the model selector; a monotonicity lattice (E6: constant / non-decreasing / '
@@ -285,4 +286,31 @@ def analyse(facts, tier):
                 okb = 'brightness != 127' in txt and '!do_op' in txt
     obls.append(Obl('C11.R4', tn.name, 'brightness only dims unscaled operators when reduced', tn.loc, 'discharged' if okb else 'finding',
                     why='guarded by brightness != 127 and !do_op' if okb else 'brightness scaling is not restricted to reduced brightness on unscaled operators'))
+    obls += r5_cache(facts)
     return obls
+
+
+
+def r5_cache(facts):
+    """touchNote takes the algorithm (carrier mask) and the patch levels from m_insCache[c]; setPatch must refresh the whole entry on every
+    path, otherwise the levels of one instrument are scaled with the carrier mask of another"""
+    out = []
+    sp = facts.fn('OPN2::setPatch')
+    cfg = sp.cfg
+    pd = cfg.pdom().get(('b', cfg.entry)) or ()
+    ok = False
+    loc = sp.loc
+    for b, j, st in cfg.stmts():
+        for x in walk(st['s']):
+            ap = assign_parts(x)
+            if ap and mentions(ap[0], member_named('m_insCache')) and strip(ap[0]).get('k') in ('ArraySubscriptExpr', 'CXXOperatorCallExpr') and strip(ap[1]).get('parm'):
+                loc = st['loc']
+                if b == cfg.entry or ('b', b) in pd:
+                    ok = True
+    reads = any(mentions(st['s'], member_named('m_insCache')) for b, j, st in facts.fn('OPN2::touchNote').cfg.stmts())
+    if not reads:
+        raise build.AnalysisBroken('C11.R5: touchNote does not read m_insCache any more')
+    out.append(Obl('C11.R5', sp.name, 'm_insCache[c] = instrument on every path', loc, 'discharged' if ok else 'finding',
+                   why='whole-entry store post-dominates the entry' if ok else
+                   'the cached timbre is refreshed only on some paths / in part: touchNote then scales the operators with the algorithm of a previous instrument (modulators get volume-scaled, carriers stay at bank level)'))
+    return out
